@@ -14,6 +14,7 @@ import (
 	"github.com/xjslang/xjs/token"
 
 	"verif/fw"
+	"verif/gen"
 	"verif/norm"
 )
 
@@ -465,11 +466,26 @@ func checkCustomTreeIC(t *fw.T, regs []opReg, tree *cnode, clause string, keyLev
 	// the expression also stands where expressions stand in statements (after `return`, as initialiser, condition,
 	// argument) and is laid out over several lines with the operators leading the continuation lines, in default and in
 	// smart-semicolon mode (no line begins with '(' or '['): grouping is the same everywhere
-	switch t.Index % 9 {
+	switch t.Index % 12 {
+	case 9, 10:
+		// the expression is a statement of its own and the next line begins another statement with a keyword - in
+		// default and in tolerant mode (nothing is missing, tolerant mode has nothing to forgive)
+		next := gen.Let("zz", gen.Num("2"))
+		if t.Index%24 >= 12 {
+			next = &gen.Node{K: gen.KIf, Kids: []*gen.Node{gen.Id("zz"), gen.ExprStmt(gen.Id("y"))}}
+		}
+		tail := gen.Render(gen.Prog(next), rand.New(rand.NewPCG(1, 5)), gen.EmitOpts{}, gen.Layout{Semi: 0, Space: 1, StmtNL: 1, NoTrailingNL: true}).Src
+		src, want = src+"\n"+tail, "(program (expr "+tree.S()+") "+strings.TrimSuffix(strings.TrimPrefix(gen.Prog(next).S(), "(program "), ")")+")"
+		if t.Index%12 == 10 {
+			mode = Mode{Tolerant: true}
+		}
+	case 11:
+		// the very first bytes of the input are the expression's (no blank, no line break in front of it)
+		src = tightenCustom(src, regs)
 	case 7, 8:
 		// no blanks around the registered character operators
 		src = tightenCustom(src, regs)
-		if t.Index%9 == 8 {
+		if t.Index%12 == 8 {
 			src, want = "let v = "+src, "(program (let v "+tree.S()+"))"
 		}
 	case 1:
@@ -483,7 +499,7 @@ func checkCustomTreeIC(t *fw.T, regs []opReg, tree *cnode, clause string, keyLev
 	case 5, 6:
 		if ml := breakBeforeInfix(src); !hasLineLeadingBracket(ml) {
 			src = ml
-			if t.Index%9 == 6 {
+			if t.Index%12 == 6 {
 				mode = Mode{Smart: true}
 			}
 		}
@@ -632,6 +648,21 @@ func runC05PrePost(t *fw.T) {
 	dot := func(o *cnode) *cnode { return &cnode{kind: "dot", name: "p", kids: []*cnode{o}} }
 	trees = append(trees, call(pre(a), b), pre(call(a, b)), call(pst(a), b), pst(call(a, b)), dot(pre(a)), pre(dot(a)), dot(pst(a)), pst(dot(a)),
 		&cnode{kind: "asg", op: "=", kids: []*cnode{a, pre(b)}}, &cnode{kind: "asg", op: "=", kids: []*cnode{a, pst(b)}})
+	// every registered character as prefix operator in front of every kind of operand start, as the first bytes of the
+	// input (`#!a`, `@-a`, `~(a)` ...): where the text stands in the file does not matter
+	for _, ch := range customChars {
+		pr := []opReg{{ch: ch, role: "prefix"}}
+		for _, operand := range []*cnode{a, {kind: "un", op: "!", kids: []*cnode{a}}, {kind: "un", op: "-", kids: []*cnode{a}}, {kind: "un", op: "++", kids: []*cnode{a}},
+			call(a, b), dot(a), {kind: "cpre", op: string(ch), kids: []*cnode{a}}} {
+			tr := &cnode{kind: "cpre", op: string(ch), kids: []*cnode{operand}}
+			for k := 0; k < 12; k++ { // all layout positions of checkCustomTree
+				t.Index = k
+				checkCustomTree(t, pr, tr, "prefix-postfix-binding", 0)
+			}
+			t.Index = 0
+			t.Distinct("file start " + tr.S())
+		}
+	}
 	// ... and once more with a plugin that obtains its operator tokens by re-typing the one-character tokens the lexer
 	// itself produces for characters it does not know (`tok := next(); if tok is ILLEGAL "~" ...`)
 	regs2 := []opReg{{ch: '~', role: "prefix", via: "illegal"}, {ch: '?', role: "postfix", via: "illegal"}}
